@@ -94,6 +94,7 @@ type Config struct {
 	DumpDir        string
 	Tier           int
 	Progress       int
+	NoWitness      bool
 }
 
 type Interp struct {
@@ -152,11 +153,20 @@ type Interp struct {
 	errorType      types.Type
 	sched          *scheduler
 	syncMaps       map[*Value]*MapObj
+	model          map[string]uint64 // a model of the current path condition, or nil
+	modelCache     map[*term.Term]uint64
+	modelBad       map[*term.Term]bool
+	witnessHits    int
+}
+
+type workItem struct {
+	prefix []dec
+	model  map[string]uint64
 }
 
 type shared struct {
 	mu      sync.Mutex
-	work    [][]dec
+	work    []workItem
 	active  int
 	cond    *sync.Cond
 	res     *Result
@@ -319,30 +329,93 @@ func (it *Interp) branch(c *term.Term) bool {
 	if len(it.trace) > it.cfg.maxDecisions() {
 		panic(boundHit{"decision budget at " + it.where()})
 	}
-	r1, _ := it.check(c, nil)
+	vars := it.inputVars()
+	if v, ok := it.evalModel(c); ok {
+		it.witnessHits++
+		if v {
+			// the current model witnesses the true side; only the false side needs the solver
+			r2, m2 := it.check(nc, vars)
+			if r2 == smt.Unsat {
+				it.trace = append(it.trace, dec{B: true, Forced: true})
+				return true
+			}
+			if r2 == smt.Unknown {
+				it.noteUnknown("branch feasibility (false side)")
+				m2 = nil
+			}
+			it.pushAlt(m2)
+			it.trace = append(it.trace, dec{B: true})
+			it.pushPC(c)
+			return true
+		}
+		r1, m1 := it.check(c, vars)
+		if r1 == smt.Unsat {
+			it.trace = append(it.trace, dec{B: false, Forced: true})
+			return false
+		}
+		if r1 == smt.Unknown {
+			it.noteUnknown("branch feasibility (true side)")
+			m1 = nil
+		}
+		it.pushAlt(it.model)
+		it.trace = append(it.trace, dec{B: true})
+		it.pushPC(c)
+		it.setModel(m1)
+		return true
+	}
+	r1, m1 := it.check(c, vars)
 	if r1 == smt.Unsat {
 		it.trace = append(it.trace, dec{B: false, Forced: true})
 		return false
 	}
 	if r1 == smt.Unknown {
 		it.noteUnknown("branch feasibility (true side)")
+		m1 = nil
 	}
-	r2, _ := it.check(nc, nil)
+	r2, m2 := it.check(nc, vars)
 	if r2 == smt.Unsat {
 		it.trace = append(it.trace, dec{B: true, Forced: true})
+		if m1 != nil {
+			it.setModel(m1)
+		}
 		return true
 	}
 	if r2 == smt.Unknown {
 		it.noteUnknown("branch feasibility (false side)")
+		m2 = nil
 	}
 	// both feasible
+	it.pushAlt(m2)
+	it.trace = append(it.trace, dec{B: true})
+	it.pushPC(c)
+	it.setModel(m1)
+	return true
+}
+
+// pushAlt enqueues the path that takes the false side of the decision being made.
+func (it *Interp) pushAlt(model map[string]uint64) {
 	alt := make([]dec, len(it.trace)+1)
 	copy(alt, it.trace)
 	alt[len(it.trace)] = dec{B: false}
-	it.sh.push(alt)
-	it.trace = append(it.trace, dec{B: true})
-	it.pushPC(c)
-	return true
+	it.sh.push(alt, model)
+}
+
+func (it *Interp) setModel(m map[string]uint64) {
+	it.model = m
+	it.modelCache = map[*term.Term]uint64{}
+	it.modelBad = map[*term.Term]bool{}
+}
+
+// evalModel evaluates a Boolean term under the cached model of the path condition.
+func (it *Interp) evalModel(c *term.Term) (bool, bool) {
+	if it.model == nil || it.cfg.NoWitness {
+		return false, false
+	}
+	if len(it.trace) < len(it.prefix) {
+		return false, false // the model belongs to the end of the prefix
+	}
+	v, ok := it.ts.EvalOK(c, it.model, it.modelCache, it.modelBad)
+	return v != 0, ok
 }
 
 func (c *Config) maxDecisions() int { return 100000 }
@@ -397,6 +470,16 @@ func (it *Interp) concretize(t *term.Term, what string) uint64 {
 			v = d.V
 			it.trace = append(it.trace, d)
 		} else {
+			if it.model != nil && len(it.trace) >= len(it.prefix) && !it.cfg.NoWitness {
+				if mv, ok := it.ts.EvalOK(t, it.model, it.modelCache, it.modelBad); ok {
+					v = mv
+					it.trace = append(it.trace, dec{Kind: 1, V: v})
+					if it.branch(it.ts.Eq(t, it.ts.BV(v, t.W))) {
+						return v
+					}
+					continue
+				}
+			}
 			// ask for a model value of t
 			probe := it.ts.Var(fmt.Sprintf("probe!%d", t.W), t.W)
 			r, m := it.check(it.ts.Eq(probe, t), map[string]uint8{probe.Name: t.W})
@@ -494,16 +577,24 @@ func (it *Interp) branchNoAlt(c *term.Term) bool {
 		}
 		return d.B
 	}
-	r1, _ := it.check(c, nil)
+	if v, ok := it.evalModel(c); ok && v {
+		it.witnessHits++
+		it.trace = append(it.trace, dec{B: true})
+		it.pushPC(c)
+		return true
+	}
+	r1, m1 := it.check(c, it.inputVars())
 	if r1 == smt.Unsat {
 		it.trace = append(it.trace, dec{B: false, Forced: true})
 		return false
 	}
 	if r1 == smt.Unknown {
 		it.noteUnknown("assume feasibility")
+		m1 = nil
 	}
 	it.trace = append(it.trace, dec{B: true})
 	it.pushPC(c)
+	it.setModel(m1)
 	return true
 }
 
@@ -549,7 +640,14 @@ func (it *Interp) assert(c *term.Term, msg string) {
 		}
 		return
 	}
-	r, m := it.check(it.ts.Not(c), it.inputVars())
+	var r smt.Result
+	var m map[string]uint64
+	if v, ok := it.evalModel(c); ok && !v {
+		// the cached model of the path condition already violates the assertion
+		r, m = smt.Sat, it.model
+	} else {
+		r, m = it.check(it.ts.Not(c), it.inputVars())
+	}
 	switch r {
 	case smt.Unsat:
 		it.assertsOK++
@@ -601,19 +699,19 @@ func (it *Interp) fail(f Failure) {
 	}
 }
 
-func (sh *shared) push(p []dec) {
+func (sh *shared) push(p []dec, model map[string]uint64) {
 	sh.mu.Lock()
-	sh.work = append(sh.work, p)
+	sh.work = append(sh.work, workItem{p, model})
 	sh.mu.Unlock()
 	sh.cond.Signal()
 }
 
-func (sh *shared) pop() ([]dec, bool) {
+func (sh *shared) pop() (workItem, bool) {
 	sh.mu.Lock()
 	defer sh.mu.Unlock()
 	for {
 		if sh.stop {
-			return nil, false
+			return workItem{}, false
 		}
 		if n := len(sh.work); n > 0 {
 			p := sh.work[n-1]
@@ -623,7 +721,7 @@ func (sh *shared) pop() ([]dec, bool) {
 		}
 		if sh.active == 0 {
 			sh.cond.Broadcast()
-			return nil, false
+			return workItem{}, false
 		}
 		sh.cond.Wait()
 	}
@@ -639,7 +737,8 @@ func (sh *shared) done() {
 }
 
 // runPath executes the entry function once along prefix.
-func (it *Interp) runPath(entry *ssa.Function, prefix []dec) {
+func (it *Interp) runPath(entry *ssa.Function, prefix []dec, model map[string]uint64) {
+	it.setModel(model)
 	it.pc = it.pc[:0]
 	it.pcSet = map[*term.Term]bool{}
 	it.trace = it.trace[:0]
@@ -733,7 +832,13 @@ func (it *Interp) runPath(entry *ssa.Function, prefix []dec) {
 	}
 	if len(res.Samples) < 3 && (outcome == "ok") && it.cfg.Concrete == nil && len(it.inputs) > 0 {
 		// write out a satisfying input of this path
-		r, m := it.check(nil, it.inputVars())
+		var r smt.Result
+		var m map[string]uint64
+		if it.model != nil && len(it.trace) >= len(it.prefix) {
+			r, m = smt.Sat, it.model
+		} else {
+			r, m = it.check(nil, it.inputVars())
+		}
 		if r == smt.Sat {
 			res.Samples = append(res.Samples, PathSample{Decisions: len(it.trace), PCSize: len(it.pc), Inputs: it.modelInputs(m), Outcome: outcome})
 		}
@@ -762,7 +867,7 @@ func Explore(prog *ssa.Program, entry *ssa.Function, cfg *Config, stubs map[stri
 	res := &Result{Entry: entry.String(), Witnesses: map[string]int{}, Funcs: map[string]int{}, Queries: map[string]int{}}
 	sh := &shared{res: res, pcSeen: map[string]bool{}}
 	sh.cond = sync.NewCond(&sh.mu)
-	sh.work = append(sh.work, nil)
+	sh.work = append(sh.work, workItem{nil, map[string]uint64{}})
 	workers := cfg.Workers
 	if cfg.Concrete != nil || workers < 1 {
 		workers = 1
@@ -805,7 +910,7 @@ func Explore(prog *ssa.Program, entry *ssa.Function, cfg *Config, stubs map[stri
 				if !ok {
 					break
 				}
-				it.runPath(entry, p)
+				it.runPath(entry, p.prefix, p.model)
 				sh.done()
 				res.mu.Lock()
 				n := res.Paths + res.Pruned
